@@ -283,7 +283,10 @@ func c03Source(w *fw.W, idx int) {
 	defer stop()
 	ctx, cancel := context.WithTimeout(context.Background(), 20*time.Second)
 	defer cancel()
-	rr := rt.New(rt.Opts{MaxSteps: 300_000, MaxAlloc: 1_000_000})
+	// MaxPhys 3000: every error keeps a copy of the call stack, so unbounded handler
+	// nesting at the default 25000 frames costs gigabytes (total memory is documented
+	// as not bounded by elps; an embedder bounds it outside)
+	rr := rt.New(rt.Opts{MaxSteps: 300_000, MaxAlloc: 1_000_000, MaxPhys: 3000})
 	v := rr.Env.LoadStringContext(ctx, "c03", string(src))
 	w.Eval(1)
 	w.Logf("class %s source (%d bytes): %q\n=> %s", class, len(src), trunc(string(src), 600), trunc(v.String(), 400))
